@@ -76,5 +76,22 @@ class RowWatch:
         return bad
 
 
+def jobs_in_flight_twice(jobs) -> list[dict]:
+    """Steps with two jobs (RUN, SKIP or VALIDATE_DYNAMIC) in flight at the same time: the row of a step
+    whose job is in flight was re-initialised (F9), so the scheduler dispatched it again."""
+    bad = []
+    by_label: dict[str, list] = {}
+    for job in jobs:
+        by_label.setdefault(job.label, []).append(job)
+    for label, group in by_label.items():
+        group.sort(key=lambda j: j.dispatched)
+        for a, b in zip(group, group[1:]):
+            if a.completed is None or b.dispatched < a.completed:
+                bad.append({"step": label, "jobs": [a.job_i, b.job_i], "kinds": [a.kind, b.kind],
+                            "windows": [[a.dispatched, a.completed], [b.dispatched, b.completed]]})
+                break
+    return bad
+
+
 def strip_tag(label: str) -> str:
     return re.sub(r" -s [0-9a-f]{6}$", "", label)
